@@ -171,12 +171,19 @@ pub fn prop_hot(c: &HotCase) -> CaseResult {
     let mut last_count = 0u64;
     let mut passes_with_traffic = 0u32;
     for pass in 0..c.passes {
-        maps.clean_and_update_statistics(&config, &statistics, &tx, &access_list, SecondsSinceServerStart::new_raw(10 + pass), c.export);
-        let now_count = announces.load(Ordering::Relaxed);
-        if now_count > last_count {
-            passes_with_traffic += 1;
+        // pace the passes by the workers' progress, so that every pass runs among announces
+        // whatever the machine's load (a starved machine makes the case slower, not emptier)
+        let t0 = std::time::Instant::now();
+        while announces.load(Ordering::Relaxed) <= last_count {
+            if t0.elapsed() > std::time::Duration::from_secs(20) {
+                stop.store(true, Ordering::SeqCst);
+                return Err(Violation::new("inconclusive-workers-stalled", "no announce completed within 20 s"));
+            }
+            std::thread::yield_now();
         }
-        last_count = now_count;
+        maps.clean_and_update_statistics(&config, &statistics, &tx, &access_list, SecondsSinceServerStart::new_raw(10 + pass), c.export);
+        passes_with_traffic += 1;
+        last_count = announces.load(Ordering::Relaxed);
         for fam in families.iter() {
             let s = if *fam == 0 { &statistics.ipv4 } else { &statistics.ipv6 };
             let got = (s.torrents.load(Ordering::Relaxed), s.peers.load(Ordering::Relaxed));
